@@ -339,6 +339,12 @@ def grad_execs(ctx, r, nrep, with_props=True, with_energy_grads=True):
                     # has entries thousands of digits long; larger systems use durations on the dyadic grid (multiples of 1/16)
                     small = (order + 1) * n <= 16
                     pr = r.problem(order, dim, n, dcls=r.choice(["grid", "real"]), dyadic=None if small else True)
+                    if (n + dim + rep) % 3 == 0:
+                        # the same curve on a time axis scaled by a large power of two (all durations ~ 0.01 s or ~ minutes): the properties bound
+                        # the ratio of durations, not their size; mis-scaled terms are negligible only near 1 s
+                        f = 2.0 ** r.choice([-6, 6, 9])
+                        pr = dict(pr); pr["T"] = [t * f for t in pr["T"]]
+                        pr["bc"] = {kk: [x / f ** {"v": 1, "a": 2, "j": 3}[kk[1]] for x in vv] for kk, vv in pr["bc"].items()}
                     cmds = [{"op": "reset"}, gen.build_cmd(1, pr, r.choice(["ctor_durs", "upd_durs", "ctor_pts"]) if small else r.choice(["ctor_durs", "upd_durs"]), 6)]
                     if with_energy_grads:
                         cmds += [{"op": "epartial", "obj": 1}, {"op": "epartial", "obj": 1, "via": "ref"},
